@@ -230,7 +230,20 @@ OnRetry ==
         LET want == Min2(Ev.min * Pow2(k - 1), Ev.max) IN Ev.gaps[k] >= want /\ Ev.gaps[k] <= want + Slack
   /\ UNCHANGED <<kind, cur, db>> /\ Step
 
-TraceNext == OnRetry \/ OnQCall \/ OnQCb \/ OnQEnd \/ OnCfg \/ OnEndScenario \/ OnWr \/ OnCreate \/ OnState \/ OnCallOther \/ OnReq \/ OnCall \/ OnWire \/ OnCb
+(***************************************************************************)
+(* decode levels (each is reported as its same-named counterpart): one     *)
+(* identical transaction through a C-ABI channel and through a Rust        *)
+(* channel at the same-named level -- given at creation or set at run time *)
+(* -- logs the same protocol-decoding lines; something is logged exactly   *)
+(* when some component of the level is not Nothing.                        *)
+(***************************************************************************)
+OnDecode ==
+  /\ Is("ffi_decode") /\ kind = "decode_levels"
+  /\ Ev.cabi = Ev.rust
+  /\ (Len(Ev.rust) > 0) <=> (Ev.level[1] + Ev.level[2] + Ev.level[3] > 0)
+  /\ UNCHANGED <<kind, cur, db>> /\ Step
+
+TraceNext == OnDecode \/ OnRetry \/ OnQCall \/ OnQCb \/ OnQEnd \/ OnCfg \/ OnEndScenario \/ OnWr \/ OnCreate \/ OnState \/ OnCallOther \/ OnReq \/ OnCall \/ OnWire \/ OnCb
              \/ OnReqEnd \/ OnTxn \/ OnTxnEnd \/ OnDbOp \/ OnDbRead \/ OnStress
 
 TraceSpec == TraceInit /\ [][TraceNext]_vars
